@@ -12,7 +12,7 @@ from magicbot import StateMachine, AutonomousStateMachine, state, timed_state, d
 from magicbot.magic_tunable import setup_tunables
 
 SEED = int(os.environ.get("VERIF_SEED", "0"))
-N_TRIALS = int(os.environ.get("SM_TRIALS", "700"))
+N_TRIALS = int(os.environ.get("SM_TRIALS", "700")) * int(os.environ.get("VERIF_SCALE", "1"))
 clock = [0.0]
 smm.getTime = lambda: clock[0]
 EPS = 1e-9
